@@ -8,6 +8,7 @@ import Mathlib.Tactic.FieldSimp
 import Mathlib.Algebra.Order.Field.Rat
 import Mathlib.Data.List.Perm.Basic
 import Mathlib.Data.Rat.Floor
+import Mathlib.Data.List.Induction
 
 namespace Coba.C11
 
@@ -550,7 +551,7 @@ theorem scaleSparse_cell (sd : List Rat → Rat) (cfg : Cfg) (rows : List SCtx) 
     (hfirst : rows.head? = some first) (h0 : cfg.shift = .num 0) (i : Nat) (k : String) :
     ∃ out, scaleSparse sd cfg rows = .ok out ∧
       sparseCell out i k = (sparseCell rows i k).map
-        (applyOpt (if potSparse first (window cfg.usingN rows) k
+        (applyOpt (if potSparse first k
           then fit sd cfg ((window cfg.usingN rows).map (getD0 k)) else none)) := by
   refine ⟨_, scaleSparse_ok sd cfg rows first hfirst h0, ?_⟩
   simp only [sparseCell, List.getElem?_map]
@@ -558,14 +559,14 @@ theorem scaleSparse_cell (sd : List Rat → Rat) (cfg : Cfg) (rows : List SCtx) 
   | none => rfl
   | some c =>
     simp only [Option.map_some, Option.bind_some]
-    exact lookup_map_val (g := fun k v => applyOpt (if potSparse first (window cfg.usingN rows) k
+    exact lookup_map_val (g := fun k v => applyOpt (if potSparse first k
           then fit sd cfg ((window cfg.usingN rows).map (getD0 k)) else none) v) c k
 
 theorem scale_sparse_eq_spec' (sd : List Rat → Rat) (cfg : Cfg) (rows : List SCtx) (first : SCtx)
     (i : Nat) (k : String) (v : Val)
     (hfirst : rows.head? = some first) (h0 : cfg.shift = .num 0)
     (hv : sparseCell rows i k = some v)
-    (hpot : potSparse first (window cfg.usingN rows) k = true)
+    (hpot : potSparse first k = true)
     (hstr : ((window cfg.usingN rows).map (getD0 k)).any Val.isStr = false)
     (hdef : StatsDefined cfg ((window cfg.usingN rows).map (getD0 k))) :
     ∃ outs out, scaleSparse sd cfg rows = .ok outs ∧ sparseCell outs i k = some out ∧
@@ -785,8 +786,8 @@ theorem mode_isSome {vs : List Val} (h : vs ≠ []) : ∃ m, mode vs = some m :=
     obtain ⟨m', h1, _⟩ := modeAux_spec (a :: l) l a
     exact ⟨m', by simp only [mode, modeAux]; exact h1⟩
 
-/-- the non-missing (not `None`) values of a column -/
-abbrev present (w : List Val) : List Val := w.filter (fun v => !v.isNil)
+/-- the non-missing (neither `None` nor `nan`) values of a column -/
+abbrev present (w : List Val) : List Val := w.filter (fun v => !v.isMiss)
 
 theorem getImp_sound {st : Stat} {w : List Val} {m : Val} (h : getImp st w = some m) :
     ImpStat st (present w) m := by
@@ -828,11 +829,11 @@ theorem getImp_isSome {st : Stat} {w : List Val} (h : Imputable st w) : ∃ m, g
     obtain ⟨q, hq⟩ := median_isSome (nums_ne_nil hne hall)
     exact ⟨.num q, by simp [getImp, hall, hq]⟩
 
-theorem imputeCell_nonnil (imp : Option Val) (v : Val) (h : v ≠ .nil) : imputeCell imp v = v := by
-  cases v <;> simp_all [imputeCell]
+theorem imputeCell_nonmiss (imp : Option Val) (v : Val) (h : v.isMiss = false) : imputeCell imp v = v := by
+  cases imp <;> simp [imputeCell, h]
 
-theorem imputeCell_nil_some (x : Val) : imputeCell (some x) .nil = x := rfl
-theorem imputeCell_nil_none : imputeCell none .nil = .nil := rfl
+theorem imputeCell_miss_some (x v : Val) (h : v.isMiss = true) : imputeCell (some x) v = x := by
+  simp [imputeCell, h]
 
 /-! ### Impute: dense contexts -/
 
@@ -858,19 +859,18 @@ theorem imputeDenseRow_cell (st : Stat) (ind : Bool) (first : List Val) (win : L
   simp [List.getElem?_mapIdx, hv]
 
 theorem imputeDenseRow_length (st : Stat) (ind : Bool) (first : List Val) (win : List (List Val)) (row : List Val) :
-    (imputeDenseRow st ind first win row).length = row.length + (denseBins st ind first win).length := by
+    (imputeDenseRow st ind first win row).length = row.length + (denseBins ind first win).length := by
   simp [imputeDenseRow]
 
 theorem imputeDenseRow_bit (st : Stat) (ind : Bool) (first : List Val) (win : List (List Val)) (row : List Val)
-    (j k : Nat) (hj : (denseBins st ind first win)[j]? = some k) :
-    (imputeDenseRow st ind first win row)[row.length + j]? = some (bit (row[k]? == some Val.nil)) := by
+    (j k : Nat) (hj : (denseBins ind first win)[j]? = some k) :
+    (imputeDenseRow st ind first win row)[row.length + j]? = some (bit (missAt row[k]?)) := by
   unfold imputeDenseRow
   rw [List.getElem?_append_right (by simp)]
   simp [List.getElem?_map, hj]
 
-theorem mem_denseBins (st : Stat) (ind : Bool) (first : List Val) (win : List (List Val)) (k : Nat) :
-    k ∈ denseBins st ind first win ↔
-      (ind = true ∧ k < first.length ∧ (denseImp st first win k).isSome = true ∧ (col k win).any Val.isNil = true) := by
+theorem mem_denseBins (ind : Bool) (first : List Val) (win : List (List Val)) (k : Nat) :
+    k ∈ denseBins ind first win ↔ (ind = true ∧ k < first.length ∧ (col k win).any Val.isMiss = true) := by
   unfold denseBins
   cases ind with
   | false => simp
@@ -904,11 +904,11 @@ theorem impDense_of_imputable (st : Stat) (first : List Val) (rows : List (List 
             | zero => exact absurd rfl hu
             | succ n => exact ⟨rest.take n, by simp [window]⟩
         obtain ⟨tl, htl⟩ := hwin
-        have hmem : f[k] ∈ (col k (window u (f :: rest))).filter (fun v => !v.isNil) := by
+        have hmem : f[k] ∈ (col k (window u (f :: rest))).filter (fun v => !v.isMiss) := by
           rw [htl]
           simp only [col, List.filterMap_cons, hget, List.mem_filter]
           refine ⟨List.mem_cons_self, ?_⟩
-          cases hv : f[k] <;> simp_all [Val.isNil, Val.isStr]
+          cases hv : f[k] <;> simp_all [Val.isMiss, Val.isStr]
         have hall := himp.2
         simp only at hall
         have := List.all_eq_true.1 hall _ hmem
@@ -916,7 +916,7 @@ theorem impDense_of_imputable (st : Stat) (first : List Val) (rows : List (List 
 
 /-- non-missing values are never changed and stay where they are -/
 theorem impute_dense_nonmissing_fixed' (st : Stat) (ind : Bool) (u : Option Nat) (rows : List (List Val))
-    (i k : Nat) (v : Val) (hv : denseCell rows i k = some v) (hnn : v ≠ .nil) :
+    (i k : Nat) (v : Val) (hv : denseCell rows i k = some v) (hnn : v.isMiss = false) :
     denseCell (imputeDense st ind u rows) i k = some v := by
   cases rows with
   | nil => simp [denseCell] at hv
@@ -926,12 +926,12 @@ theorem impute_dense_nonmissing_fixed' (st : Stat) (ind : Bool) (u : Option Nat)
     | none => simp [hr] at hv
     | some row =>
       simp only [hr, Option.bind_some, Option.map_some] at hv ⊢
-      rw [imputeDenseRow_cell st ind f _ row k v hv, imputeCell_nonnil _ v hnn]
+      rw [imputeDenseRow_cell st ind f _ row k v hv, imputeCell_nonmiss _ v hnn]
 
 /-- every missing value of an imputable feature is replaced by the statistic of the window -/
 theorem impute_dense_eq_spec' (st : Stat) (ind : Bool) (u : Option Nat) (rows : List (List Val)) (first : List Val)
-    (i k : Nat) (hfirst : rows.head? = some first) (hu : u ≠ some 0) (hk : k < first.length)
-    (hv : denseCell rows i k = some .nil)
+    (i k : Nat) (v : Val) (hfirst : rows.head? = some first) (hu : u ≠ some 0) (hk : k < first.length)
+    (hv : denseCell rows i k = some v) (hmiss : v.isMiss = true)
     (himp : Imputable st (col k (window u rows))) :
     ∃ m, denseCell (imputeDense st ind u rows) i k = some m ∧ ImpStat st (present (col k (window u rows))) m := by
   obtain ⟨m, hm⟩ := getImp_isSome himp
@@ -943,25 +943,23 @@ theorem impute_dense_eq_spec' (st : Stat) (ind : Bool) (u : Option Nat) (rows : 
   | none => simp [hr] at hv
   | some row =>
     simp only [hr, Option.bind_some, Option.map_some] at hv ⊢
-    rw [imputeDenseRow_cell st ind first _ row k .nil hv, hd]
-    rfl
+    rw [imputeDenseRow_cell st ind first _ row k v hv, hd, imputeCell_miss_some m v hmiss]
 
 
-/-- the missingness indicators of a dense row: exactly one 0/1 feature per imputable column that has a
-missing value in the window, appended after the features, 1 iff the row's value there was missing -/
+/-- the missingness indicators of a dense row: exactly one 0/1 feature per column that has a missing value
+(`None` or `nan`) in the window, appended after the features, 1 iff the row's value there was missing -/
 theorem impute_dense_indicator' (st : Stat) (ind : Bool) (u : Option Nat) (rows : List (List Val)) (first row : List Val)
     (i : Nat) (hfirst : rows.head? = some first) (hrow : rows[i]? = some row) :
     ∃ out, (imputeDense st ind u rows)[i]? = some out ∧
-      out.length = row.length + (denseBins st ind first (window u rows)).length ∧
-      (∀ j k, (denseBins st ind first (window u rows))[j]? = some k →
-        out[row.length + j]? = some (bit (row[k]? == some Val.nil))) ∧
-      (∀ k, k ∈ denseBins st ind first (window u rows) ↔
-        (ind = true ∧ k < first.length ∧ (denseImp st first (window u rows) k).isSome = true ∧
-          (col k (window u rows)).any Val.isNil = true)) := by
+      out.length = row.length + (denseBins ind first (window u rows)).length ∧
+      (∀ j k, (denseBins ind first (window u rows))[j]? = some k →
+        out[row.length + j]? = some (bit (missAt row[k]?))) ∧
+      (∀ k, k ∈ denseBins ind first (window u rows) ↔
+        (ind = true ∧ k < first.length ∧ (col k (window u rows)).any Val.isMiss = true)) := by
   refine ⟨imputeDenseRow st ind first (window u rows) row, ?_, imputeDenseRow_length _ _ _ _ _, ?_, ?_⟩
   · rw [imputeDense_row st ind u rows first hfirst, hrow]; rfl
   · intro j k hj; exact imputeDenseRow_bit st ind first _ row j k hj
-  · intro k; exact mem_denseBins st ind first _ k
+  · intro k; exact mem_denseBins ind first _ k
 
 theorem impute_dense_no_indicator' (st : Stat) (u : Option Nat) (rows : List (List Val)) :
     (imputeDense st false u rows).map List.length = rows.map List.length := by
@@ -982,24 +980,24 @@ theorem impute_dense_length' (st : Stat) (ind : Bool) (u : Option Nat) (rows : L
 /-! ### Impute: scalar contexts -/
 
 theorem impute_scalar_spec' (st : Stat) (ind : Bool) (u : Option Nat) (rows : List Val) :
-    (ind && (window u rows).any Val.isNil) = false →
+    (ind && (window u rows).any Val.isMiss) = false →
       imputeScalar st ind u rows = .scalars (rows.map (imputeCell (getImp st (window u rows)))) := by
   intro h; simp [imputeScalar, h]
 
 theorem impute_scalar_indicator' (st : Stat) (ind : Bool) (u : Option Nat) (rows : List Val) :
-    (ind && (window u rows).any Val.isNil) = true →
+    (ind && (window u rows).any Val.isMiss) = true →
       imputeScalar st ind u rows =
-        .pairs (rows.map (fun v => [imputeCell (getImp st (window u rows)) v, bit v.isNil])) := by
+        .pairs (rows.map (fun v => [imputeCell (getImp st (window u rows)) v, bit v.isMiss])) := by
   intro h; simp [imputeScalar, h]
 
 /-- a missing scalar context is replaced by the statistic of the window, everything else stays -/
 theorem imputeCell_spec (st : Stat) (w : List Val) (v : Val) :
-    (v ≠ .nil → imputeCell (getImp st w) v = v) ∧
-    (v = .nil → Imputable st w → ∃ m, imputeCell (getImp st w) v = m ∧ ImpStat st (present w) m) := by
-  refine ⟨imputeCell_nonnil _ v, ?_⟩
-  rintro rfl himp
+    (v.isMiss = false → imputeCell (getImp st w) v = v) ∧
+    (v.isMiss = true → Imputable st w → ∃ m, imputeCell (getImp st w) v = m ∧ ImpStat st (present w) m) := by
+  refine ⟨imputeCell_nonmiss _ v, ?_⟩
+  intro hmiss himp
   obtain ⟨m, hm⟩ := getImp_isSome himp
-  exact ⟨m, by rw [hm]; rfl, getImp_sound hm⟩
+  exact ⟨m, by rw [hm, imputeCell_miss_some m v hmiss], getImp_sound hm⟩
 
 /-! ### Impute: sparse contexts -/
 
@@ -1017,43 +1015,83 @@ theorem imputeSparse_row (st : Stat) (ind : Bool) (u : Option Nat) (rows : List 
     subst hfirst
     simp only [imputeSparse, List.getElem?_map]
 
+theorem lookup_upsert (c : SCtx) (k k' : String) (v : Val) :
+    (upsert c k' v).lookup k = if k == k' then some v else c.lookup k := by
+  induction c with
+  | nil =>
+    simp only [upsert, List.lookup]
+    cases h : k == k' <;> simp
+  | cons kv rest ih =>
+    obtain ⟨a, b⟩ := kv
+    simp only [upsert]
+    by_cases hak : (a == k') = true
+    · have e1 : a = k' := by simpa using hak
+      subst e1
+      simp only [beq_self_eq_true, if_true, List.lookup]
+      cases h : k == a <;> simp
+    · simp only [hak, Bool.false_eq_true, if_false, List.lookup]
+      cases h : k == a with
+      | true =>
+        have e1 : k = a := by simpa using h
+        subst e1
+        have : (k == k') = false := by simpa using hak
+        simp [this]
+      | false => simpa using ih
+
+theorem lookup_foldl_upsert (bins : List String) (g : String → Val) (c : SCtx) (k : String)
+    (hfresh : ∀ b ∈ bins, b ++ "_is_missing" ≠ k) :
+    (bins.foldl (fun acc b => upsert acc (b ++ "_is_missing") (g b)) c).lookup k = c.lookup k := by
+  induction bins generalizing c with
+  | nil => rfl
+  | cons b rest ih =>
+    simp only [List.foldl_cons]
+    rw [ih _ (fun b' hb' => hfresh b' (List.mem_cons_of_mem _ hb')), lookup_upsert]
+    have : (k == b ++ "_is_missing") = false := by
+      have := hfresh b List.mem_cons_self
+      simpa using fun h => this h.symm
+    simp [this]
+
 theorem imputeSparseRow_cell (st : Stat) (ind : Bool) (first : SCtx) (win : List SCtx) (c : SCtx)
-    (k : String) (v : Val) (hv : c.lookup k = some v) :
+    (k : String) (v : Val) (hv : c.lookup k = some v)
+    (hfresh : ∀ b ∈ sparseBins ind win, b ++ "_is_missing" ≠ k) :
     (imputeSparseRow st ind first win c).lookup k = some (imputeCell (sparseImp st first win k) v) := by
   unfold imputeSparseRow
-  rw [List.lookup_append]
+  rw [lookup_foldl_upsert _ _ _ _ hfresh]
   rw [lookup_map_val (g := fun k v => imputeCell (sparseImp st first win k) v) c k, hv]
   rfl
 
 theorem impute_sparse_cell' (st : Stat) (ind : Bool) (u : Option Nat) (rows : List SCtx) (first : SCtx)
-    (i : Nat) (k : String) (v : Val) (hfirst : rows.head? = some first) (hv : sparseCell rows i k = some v) :
+    (i : Nat) (k : String) (v : Val) (hfirst : rows.head? = some first) (hv : sparseCell rows i k = some v)
+    (hfresh : ∀ b ∈ sparseBins ind (window u rows), b ++ "_is_missing" ≠ k) :
     sparseCell (imputeSparse st ind u rows) i k = some (imputeCell (sparseImp st first (window u rows) k) v) := by
   simp only [sparseCell, imputeSparse_row st ind u rows first hfirst] at hv ⊢
   cases hr : rows[i]? with
   | none => simp [hr] at hv
   | some c =>
     simp only [hr, Option.bind_some, Option.map_some] at hv ⊢
-    exact imputeSparseRow_cell st ind first _ c k v hv
+    exact imputeSparseRow_cell st ind first _ c k v hv hfresh
 
 theorem impute_sparse_nonmissing_fixed' (st : Stat) (ind : Bool) (u : Option Nat) (rows : List SCtx)
-    (i : Nat) (k : String) (v : Val) (hv : sparseCell rows i k = some v) (hnn : v ≠ .nil) :
+    (i : Nat) (k : String) (v : Val) (hv : sparseCell rows i k = some v) (hnn : v.isMiss = false)
+    (hfresh : ∀ b ∈ sparseBins ind (window u rows), b ++ "_is_missing" ≠ k) :
     sparseCell (imputeSparse st ind u rows) i k = some v := by
   cases rows with
   | nil => simp [sparseCell] at hv
   | cons f rest =>
-    rw [impute_sparse_cell' st ind u (f :: rest) f i k v rfl hv, imputeCell_nonnil _ v hnn]
+    rw [impute_sparse_cell' st ind u (f :: rest) f i k v rfl hv hfresh, imputeCell_nonmiss _ v hnn]
 
 theorem impute_sparse_eq_spec' (st : Stat) (ind : Bool) (u : Option Nat) (rows : List SCtx) (first : SCtx)
-    (i : Nat) (k : String) (hfirst : rows.head? = some first)
-    (hv : sparseCell rows i k = some .nil)
-    (hkey : impSparseKey st first (window u rows) k = true)
-    (himp : Imputable st (sparseCol k (window u rows))) :
+    (i : Nat) (k : String) (v : Val) (hfirst : rows.head? = some first)
+    (hv : sparseCell rows i k = some v) (hmiss : v.isMiss = true)
+    (hkey : impSparseKey st first k = true)
+    (himp : Imputable st (sparseCol k (window u rows)))
+    (hfresh : ∀ b ∈ sparseBins ind (window u rows), b ++ "_is_missing" ≠ k) :
     ∃ m, sparseCell (imputeSparse st ind u rows) i k = some m ∧
       ImpStat st (present (sparseCol k (window u rows))) m := by
   obtain ⟨m, hm⟩ := getImp_isSome himp
   refine ⟨m, ?_, getImp_sound hm⟩
-  rw [impute_sparse_cell' st ind u rows first i k .nil hfirst hv]
-  simp [sparseImp, hkey, hm, imputeCell]
+  rw [impute_sparse_cell' st ind u rows first i k v hfirst hv hfresh]
+  simp [sparseImp, hkey, hm, imputeCell_miss_some m v hmiss]
 
 /-! ### Impute: window and lists of statistics -/
 
@@ -1116,8 +1154,7 @@ theorem numOrNil_eq_not_isStr (v : Val) : v.numOrNil = !v.isStr := by cases v <;
 theorem scale_sparse_dense_agree' (sd : List Rat → Rat) (cfg : Cfg) (rows : List SCtx) (first : SCtx)
     (keys : List String) (i j : Nat) (k : String) (v : Val)
     (hfirst : rows.head? = some first) (h0 : cfg.shift = .num 0)
-    (hk : keys[j]? = some k) (hv : sparseCell rows i k = some v)
-    (hocc : (window cfg.usingN rows).any (hasKey k) = true) :
+    (hk : keys[j]? = some k) (hv : sparseCell rows i k = some v) :
     ∃ outs, scaleSparse sd cfg rows = .ok outs ∧
       sparseCell outs i k = denseCell (scaleDense sd cfg (rows.map (embed keys))) i j := by
   obtain ⟨outs, h1, h2⟩ := scaleSparse_cell sd cfg rows first hfirst h0 i k
@@ -1127,7 +1164,6 @@ theorem scale_sparse_dense_agree' (sd : List Rat → Rat) (cfg : Cfg) (rows : Li
     | nil => simp at hfirst
     | cons f r => simp at hfirst; subst hfirst; rfl
   rw [h2, scaleDense_cell sd cfg _ (embed keys first) hf', window_map, col_embed keys j k hk]
-  -- the input cell
   have hcell : denseCell (rows.map (embed keys)) i j = some v := by
     simp only [sparseCell] at hv
     simp only [denseCell, List.getElem?_map]
@@ -1137,48 +1173,12 @@ theorem scale_sparse_dense_agree' (sd : List Rat → Rat) (cfg : Cfg) (rows : Li
       simp only [hr, Option.bind_some] at hv
       simp only [Option.map_some, Option.bind_some, embed_get keys j k hk c, getD0, hv]
   rw [hcell, hv]
-  -- potential keys coincide
-  have hpot : potSparse first (window cfg.usingN rows) k = potDense (embed keys first) j := by
-    simp only [potSparse, hocc, Bool.true_and, potDense, embed_get keys j k hk first, getD0]
+  have hpot : potSparse first k = potDense (embed keys first) j := by
+    simp only [potSparse, potDense, embed_get keys j k hk first, getD0]
     cases first.lookup k with
     | none => rfl
     | some x => simp [numOrNil_eq_not_isStr]
   rw [hpot]
-
-/-! ### recorded findings: a sparse key that does not occur in the fitting window -/
-
-theorem scale_key_outside_window_witness :
-    let cfg : Cfg := ⟨.num 0, .num 2, some 1⟩
-    let rows : List SCtx := [[("a", .num 1)], [("b", .num 3)]]
-    ∀ sd : List Rat → Rat,
-      (∃ outs, scaleSparse sd cfg rows = .ok outs ∧ sparseCell outs 1 "b" = some (.num 3)) ∧
-      (∀ out, ScaleCellSpec sd cfg ((window cfg.usingN rows).map (getD0 "b")) (.num 3) out → out = .num 6) := by
-  intro cfg rows sd
-  refine ⟨⟨_, rfl, ?_⟩, ?_⟩
-  · simp [sparseCell, sparseRow, rows, cfg, potSparse, window, hasKey, applyOpt, List.lookup]
-  · intro out h
-    obtain ⟨s, f, hs, hf, rfl⟩ := h
-    obtain ⟨d, hd, hf⟩ := hf
-    simp only [cfg, ShiftStat, ScaleDen] at hs hd
-    subst hs hd
-    rw [hf]
-    norm_num
-
-theorem impute_key_outside_window_witness :
-    let rows : List SCtx := [[("a", .num 1)], [("b", .nil)]]
-    sparseCell (imputeSparse .mean false (some 1) rows) 1 "b" = some .nil ∧
-    (∀ m, ImpStat .mean (present (sparseCol "b" (window (some 1) rows))) m → m = .num 0) := by
-  intro rows
-  refine ⟨?_, ?_⟩
-  · simp [sparseCell, imputeSparse, imputeSparseRow, rows, sparseBins, sparseImp, impSparseKey, window, hasKey,
-      imputeCell, List.lookup]
-  · intro m h
-    obtain ⟨_, h2⟩ := h
-    have hcol : sparseCol "b" (window (some 1) rows) = [Val.num 0] := by
-      simp [rows, window, sparseCol, List.lookup, show ("b" == "a") = false from by decide]
-    rw [h2, hcol]
-    simp [present, nums, sumL, Val.isNil, Val.num?]
-
 
 /-! ### Impute: sparse indicators -/
 
@@ -1240,30 +1240,256 @@ theorem mem_seenKeys (k : String) (cs : List SCtx) (acc : List String) :
     rw [ih, mem_foldl_keys, hasKey_iff]
     tauto
 
-theorem mem_sparseBins (st : Stat) (ind : Bool) (first : SCtx) (win : List SCtx) (k : String) :
-    k ∈ sparseBins st ind first win ↔
-      (ind = true ∧ win.any (hasKey k) = true ∧ (sparseImp st first win k).isSome = true ∧
-        (win.filterMap (fun c => c.lookup k)).any Val.isNil = true) := by
+theorem mem_sparseBins (ind : Bool) (win : List SCtx) (k : String) :
+    k ∈ sparseBins ind win ↔
+      (ind = true ∧ win.any (hasKey k) = true ∧ (win.filterMap (fun c => c.lookup k)).any Val.isMiss = true) := by
   unfold sparseBins
   cases ind with
   | false => simp
   | true =>
-    simp only [if_true, List.mem_filter, mem_seenKeys, List.not_mem_nil, false_or, Bool.and_eq_true, true_and]
+    simp only [if_true, List.mem_filter, mem_seenKeys, List.not_mem_nil, false_or, true_and]
 
-/-- a sparse result row is the (imputed) context followed by one `<key>_is_missing` 0/1 entry per imputable key
-that occurs with a missing value in the window; 1 iff this row's value under the key was missing -/
+/-- a sparse result row is the (imputed) context followed by one `<key>_is_missing` 0/1 entry per key that occurs
+with a missing value (`None` or `nan`) in the window; 1 iff this row's value under the key was missing -/
 theorem impute_sparse_indicator' (st : Stat) (ind : Bool) (u : Option Nat) (rows : List SCtx) (first c : SCtx)
     (i : Nat) (hfirst : rows.head? = some first) (hrow : rows[i]? = some c) :
     (imputeSparse st ind u rows)[i]? = some
-      (c.map (fun kv => (kv.1, imputeCell (sparseImp st first (window u rows) kv.1) kv.2))
-        ++ (sparseBins st ind first (window u rows)).map
-            (fun k => (k ++ "_is_missing", bit (c.lookup k == some Val.nil)))) ∧
-    (∀ k, k ∈ sparseBins st ind first (window u rows) ↔
-      (ind = true ∧ (window u rows).any (hasKey k) = true ∧ (sparseImp st first (window u rows) k).isSome = true ∧
-        ((window u rows).filterMap (fun c => c.lookup k)).any Val.isNil = true)) := by
-  refine ⟨?_, fun k => mem_sparseBins st ind first _ k⟩
+      ((sparseBins ind (window u rows)).foldl
+        (fun acc k => upsert acc (k ++ "_is_missing") (bit (missAt (c.lookup k))))
+        (c.map (fun kv => (kv.1, imputeCell (sparseImp st first (window u rows) kv.1) kv.2)))) ∧
+    (∀ k, k ∈ sparseBins ind (window u rows) ↔
+      (ind = true ∧ (window u rows).any (hasKey k) = true ∧
+        ((window u rows).filterMap (fun c => c.lookup k)).any Val.isMiss = true)) := by
+  refine ⟨?_, fun k => mem_sparseBins ind _ k⟩
   rw [imputeSparse_row st ind u rows first hfirst, hrow]
   rfl
+
+/-! ### filter objects keep no fitted state -/
+
+theorem Obj.call_cfg {κ α β : Type} (f : κ → α → β) (o : Obj κ) (dt : List Nat) (x : α) :
+    (o.call f dt x).1.cfg = o.cfg ∧ (o.call f dt x).2 = f o.cfg x := ⟨rfl, rfl⟩
+
+theorem Obj.run_spec {κ α β : Type} (f : κ → α → β) (o : Obj κ) (calls : List (List Nat × α)) :
+    (Obj.run f o calls).1.cfg = o.cfg ∧ (Obj.run f o calls).2 = calls.map (fun c => f o.cfg c.2) := by
+  induction calls generalizing o with
+  | nil => exact ⟨rfl, rfl⟩
+  | cons c rest ih =>
+    obtain ⟨dt, x⟩ := c
+    simp only [Obj.run, List.map_cons]
+    obtain ⟨h1, h2⟩ := ih (o.call f dt x).1
+    exact ⟨h1, by rw [h2]; rfl⟩
+
+/-- the result for sequence `B` after any earlier calls equals the result of a fresh object on `B` -/
+theorem filter_stateless' {κ α β : Type} (f : κ → α → β) (o : Obj κ) (before : List (List Nat × α))
+    (dt : List Nat) (b : α) (times' : List Nat) :
+    ((Obj.run f o (before ++ [(dt, b)])).2).getLast? = some (f o.cfg b) ∧
+    ((Obj.run f o (before ++ [(dt, b)])).2).getLast? = some ((Obj.call f ⟨o.cfg, times'⟩ dt b).2) := by
+  have h := (Obj.run_spec f o (before ++ [(dt, b)])).2
+  rw [h]
+  simp [Obj.call]
+
+theorem pipeRun_spec {κ : Type} (f : κ → Ctxs → Except Err Ctxs) (dt : List Nat) (os : List (Obj κ))
+    (r : Except Err Ctxs) :
+    (pipeRun f dt os r).1.map (·.cfg) = os.map (·.cfg) ∧ (pipeRun f dt os r).2 = pipe f (os.map (·.cfg)) r := by
+  induction os generalizing r with
+  | nil => exact ⟨rfl, rfl⟩
+  | cons o os ih =>
+    cases r with
+    | error e =>
+      refine ⟨rfl, ?_⟩
+      simp only [pipeRun, pipe, List.map_cons, List.foldl_cons]
+      have : ∀ (cfgs : List κ), List.foldl (fun r k => r.bind (f k)) (Except.error e : Except Err Ctxs) cfgs = .error e := by
+        intro cfgs
+        induction cfgs with
+        | nil => rfl
+        | cons k ks ihk => simpa [List.foldl_cons, Except.bind] using ihk
+      exact (this _).symm
+    | ok c =>
+      simp only [pipeRun, List.map_cons]
+      obtain ⟨h1, h2⟩ := ih (o.call f dt c).2
+      refine ⟨by rw [h1]; rfl, ?_⟩
+      rw [h2]
+      simp [pipe, List.foldl_cons, Obj.call, Except.bind]
+
+theorem Coll.read_spec {κ : Type} (f : κ → Ctxs → Except Err Ctxs) (c : Coll κ) (dt : List Nat) (i : Nat) :
+    (c.read f dt i).1.srcs = c.srcs ∧ (c.read f dt i).1.objs.map (·.cfg) = c.objs.map (·.cfg) ∧
+    (c.read f dt i).2 = (c.srcs[i]?).map (fun src => pipe f (c.objs.map (·.cfg)) (.ok src)) := by
+  unfold Coll.read
+  cases h : c.srcs[i]? with
+  | none => exact ⟨rfl, rfl, rfl⟩
+  | some src =>
+    obtain ⟨h1, h2⟩ := pipeRun_spec f dt c.objs (.ok src)
+    exact ⟨rfl, h1, by simp [h2]⟩
+
+/-- every read of a collection, in any order and any number of times, returns what the pipeline of the filters'
+functions gives on that environment's own interactions -/
+theorem collection_pointwise' {κ : Type} (f : κ → Ctxs → Except Err Ctxs) (c : Coll κ) (order : List (List Nat × Nat)) :
+    (Coll.reads f c order).2 =
+      order.map (fun di => (c.srcs[di.2]?).map (fun src => pipe f (c.objs.map (·.cfg)) (.ok src))) := by
+  induction order generalizing c with
+  | nil => rfl
+  | cons di rest ih =>
+    obtain ⟨dt, i⟩ := di
+    obtain ⟨h1, h2, h3⟩ := Coll.read_spec f c dt i
+    simp only [Coll.reads, List.map_cons]
+    rw [ih (c.read f dt i).1, h1, h2, h3]
+
+theorem pipe_scale (sd : List Rat → Rat) (cfg : Cfg) (c : Ctxs) :
+    pipe (scaleCtxs sd) [cfg] (.ok c) = scaleCtxs sd cfg c := by
+  simp [pipe, Except.bind]
+
+theorem pipe_impute (stats : List Stat) (ind : Bool) (u : Option Nat) (c : Ctxs) :
+    pipe imputeF (stats.map (fun st => (st, ind, u))) (.ok c) = .ok (envImpute stats ind u c) := by
+  induction stats generalizing c with
+  | nil => rfl
+  | cons st rest ih =>
+    simp only [pipe, List.map_cons, List.foldl_cons, envImpute] at ih ⊢
+    simp only [Except.bind, imputeF]
+    exact ih (imputeCtxs st ind u c)
+
+/-! ### `std`: the reciprocal square root of the sample variance -/
+
+theorem sumL_eq_sum (xs : List Rat) : sumL xs = xs.sum := by
+  unfold sumL
+  have : ∀ (a : Rat) (l : List Rat), l.foldl (· + ·) a = a + l.sum := by
+    intro a l
+    induction l generalizing a with
+    | nil => simp
+    | cons b l ih => simp [List.foldl_cons, ih, add_assoc]
+  simpa using this 0 xs
+
+theorem sum_sq_nonneg (l : List Rat) (g : Rat → Rat) : 0 ≤ (l.map (fun x => g x * g x)).sum := by
+  induction l with
+  | nil => simp
+  | cons a l ih =>
+    simp only [List.map_cons, List.sum_cons]
+    have := mul_self_nonneg (g a)
+    linarith
+
+theorem variance_nonneg (xs : List Rat) (h : 2 ≤ xs.length) : 0 ≤ variance xs := by
+  unfold variance
+  rw [sumL_eq_sum]
+  have h1 : (0 : Rat) ≤ (xs.length : Rat) - 1 := by
+    have : (2 : Rat) ≤ (xs.length : Rat) := by exact_mod_cast h
+    linarith
+  exact div_nonneg (sum_sq_nonneg xs (fun x => x - sumL xs / (xs.length : Rat))) h1
+
+/-- there is at most one reciprocal square root -/
+theorem invSqrt_unique' {v f g : Rat} (hf : IsInvSqrt v f) (hg : IsInvSqrt v g) : f = g := by
+  obtain ⟨hf0, hf1⟩ := hf
+  obtain ⟨hg0, hg1⟩ := hg
+  have hv : v ≠ 0 := by
+    intro h; rw [h] at hf1; simp at hf1
+  have hsq : f * f = g * g := by
+    have : f * f * v = g * g * v := by rw [hf1, hg1]
+    exact mul_right_cancel₀ hv this
+  have : (f - g) * (f + g) = 0 := by ring_nf; linarith
+  rcases mul_eq_zero.1 this with h | h
+  · linarith
+  · have hf' : f = 0 := by linarith
+    have hg' : g = 0 := by linarith
+    rw [hf', hg']
+
+theorem guard_iff_variance {sd : List Rat → Rat} {xs : List Rat} (h : SqrtExact sd xs) :
+    sd xs < 1 / 1000000 ↔ variance xs < 1 / 1000000000000 := by
+  obtain ⟨h0, h1⟩ := h
+  rw [← h1]
+  constructor
+  · intro hlt
+    have : sd xs * sd xs < (1 / 1000000) * (1 / 1000000) := by nlinarith
+    linarith
+  · intro hlt
+    by_contra hc
+    have hge : (1 : Rat) / 1000000 ≤ sd xs := not_lt.1 hc
+    have : (1 / 1000000 : Rat) * (1 / 1000000) ≤ sd xs * sd xs := by nlinarith
+    linarith
+
+/-- with an exact square root the code's scale for `std` is THE reciprocal square root of the sample variance
+(1 below the 1e-6 guard) -/
+theorem std_scale_exact' (sd : List Rat → Rat) (xs : List Rat) (s f : Rat) (hx : SqrtExact sd xs)
+    (h : ScaleStat sd .std xs s f) : ScaleStatQ .std xs s f := by
+  obtain ⟨d, ⟨hl, rfl⟩, rfl⟩ := h
+  refine ⟨hl, ?_⟩
+  by_cases hg : sd xs < 1 / 1000000
+  · left
+    exact ⟨(guard_iff_variance hx).1 hg, by rw [if_pos hg]; norm_num⟩
+  · right
+    have hv : ¬ variance xs < 1 / 1000000000000 := fun h' => hg ((guard_iff_variance hx).2 h')
+    refine ⟨not_lt.1 hv, ?_⟩
+    simp only [hg, if_false, mul_one]
+    obtain ⟨h0, h1⟩ := hx
+    have hpos : 0 < sd xs := lt_of_lt_of_le (by norm_num) (not_lt.1 hg)
+    refine ⟨by positivity, ?_⟩
+    rw [← h1]
+    field_simp
+
+/-- with a square root of relative error `δ` (in the square) the scale satisfies `f²·var·(1+δ) = 1`: it is the
+reciprocal square root up to exactly the error of the square-root routine -/
+theorem std_scale_within' (sd : List Rat → Rat) (xs : List Rat) (s f δ : Rat) (hx : SqrtWithin sd xs δ)
+    (hg : ¬ sd xs < 1 / 1000000) (h : ScaleStat sd .std xs s f) :
+    0 ≤ f ∧ f * f * variance xs * (1 + δ) = 1 := by
+  obtain ⟨d, ⟨_, rfl⟩, rfl⟩ := h
+  obtain ⟨hpos, h1⟩ := hx
+  simp only [hg, if_false, mul_one]
+  refine ⟨by positivity, ?_⟩
+  rw [mul_assoc, ← h1]
+  field_simp
+
+theorem scaleStat_to_Q {sd : List Rat → Rat} {sc : Scl} {xs : List Rat} {s f : Rat}
+    (h : ScaleStat sd sc xs s f) (hx : sc = .std → SqrtExact sd xs) : ScaleStatQ sc xs s f := by
+  cases sc with
+  | std => exact std_scale_exact' sd xs s f (hx rfl) h
+  | num b => exact h
+  | minmax => exact h
+  | iqr => exact h
+  | maxabs => exact h
+
+theorem fit_sound_q {sd : List Rat → Rat} {cfg : Cfg} {w : List Val} {s f : Rat}
+    (h : fit sd cfg w = some (s, f)) (hx : cfg.scale = .std → SqrtExact sd (nums w)) :
+    ShiftStat cfg.shift (nums w) s ∧ ScaleStatQ cfg.scale (nums w) s f :=
+  ⟨(fit_sound h).1, scaleStat_to_Q (fit_sound h).2 hx⟩
+
+theorem cellSpec_to_Q {sd : List Rat → Rat} {cfg : Cfg} {w : List Val} {v out : Val}
+    (h : ScaleCellSpec sd cfg w v out) (hx : cfg.scale = .std → SqrtExact sd (nums w)) :
+    ScaleCellSpecQ cfg w v out := by
+  cases v with
+  | num x =>
+    obtain ⟨s, f, h1, h2, h3⟩ := h
+    exact ⟨s, f, h1, scaleStat_to_Q h2 hx, h3⟩
+  | nan => exact h
+  | nil => exact h
+  | str t => exact h
+
+
+theorem lookup_foldl_upsert_hit (bins : List String) (g : String → Val) (c : SCtx) (b : String) (hb : b ∈ bins) :
+    ∃ b' ∈ bins, b' ++ "_is_missing" = b ++ "_is_missing" ∧
+      (bins.foldl (fun acc b => upsert acc (b ++ "_is_missing") (g b)) c).lookup (b ++ "_is_missing") = some (g b') := by
+  induction bins using List.reverseRecOn with
+  | nil => simp at hb
+  | append_singleton init last ih =>
+    simp only [List.foldl_append, List.foldl_cons, List.foldl_nil, lookup_upsert]
+    by_cases h : (b ++ "_is_missing" == last ++ "_is_missing") = true
+    · refine ⟨last, by simp, ?_, by simp [h]⟩
+      have : b ++ "_is_missing" = last ++ "_is_missing" := by simpa using h
+      exact this.symm
+    · have hb' : b ∈ init := by
+        rcases List.mem_append.1 hb with h1 | h1
+        · exact h1
+        · have : b = last := by simpa using h1
+          subst this
+          simp at h
+      obtain ⟨b', hm, he, hl⟩ := ih hb'
+      refine ⟨b', List.mem_append_left _ hm, he, ?_⟩
+      simp only [h, Bool.false_eq_true, if_false]
+      exact hl
+
+/-- every indicator key of the window is present in every result row and holds the missingness bit of a window key
+with that indicator name -/
+theorem impute_sparse_indicator_value' (st : Stat) (ind : Bool) (first : SCtx) (win : List SCtx) (c : SCtx)
+    (b : String) (hb : b ∈ sparseBins ind win) :
+    ∃ b' ∈ sparseBins ind win, b' ++ "_is_missing" = b ++ "_is_missing" ∧
+      (imputeSparseRow st ind first win c).lookup (b ++ "_is_missing") = some (bit (missAt (c.lookup b'))) :=
+  lookup_foldl_upsert_hit _ (fun k => bit (missAt (c.lookup k))) _ b hb
 
 
 end Coba.C11
